@@ -35,7 +35,7 @@ def c07_subnormal_quotient(case, desc=None):
     off = 1 if name.startswith("Segment<") else 0
     cs = [C.fl(b) for b in args[off:]]
     for i in range(1, len(cs)):
-        q = abs(cs[i]) / (i + 1)
-        if cs[i] == cs[i] and 0 < q < 2.0 ** -1022:
+        # 0 < |c_i/(i+1)| < 2^-1022, decided without forming the (possibly underflowing) quotient
+        if cs[i] == cs[i] and 0 < abs(cs[i]) < (i + 1) * 2.0 ** -1022:
             return True
     return False
